@@ -569,6 +569,7 @@ class CdsSequenceText(Case):
 
     def __init__(self, n):
         self.n = n
+        self.tier = "thorough" if n > 1 else "quick"
         self.name = f"CDSInterval.extract_sequence[{n} exons, one reading frame, symbolic text, chunk of either strand]"
         self.call = "(lambda s: (len(s), s, cds.num_codons))(cds.extract_sequence())"
         # known finding F-C05-2: a 5'-most exon SHORTER than the start offset (the skipped bases run into the second
